@@ -155,7 +155,7 @@ def build():
     U.extract(S.CPR, 'impl CompiledProg', fns=d, others='stub', skip=('into_program',))
     U.extract(S.CPR, 'impl NodeValue', fns=S.stubbed(S.NODEVALUE))
     U.extract(S.CP, "impl<'l> CelCompiler<'l>", fns={
-        'new_label': A(stub=True, ret='r', ensures=[('fresh_label', 'r == old(self).next_label && final(self).next_label == old(self).next_label + 1 && final(self).tokenizer == old(self).tokenizer'),
+        'new_label': A(stub=True, ret='r', ensures=[('fresh_label', 'r == old(self).next_label && final(self).next_label == old(self).next_label + 1 && final(self).tokenizer == old(self).tokenizer && final(self).bindings == old(self).bindings'),
                                                   ('ASSUMED_no_overflow_of_the_label_counter', 'old(self).next_label < u32::MAX')]),
         'parse_conditional_or': A(stub=True, ret='r', requires=[CURSOR], ensures=[UNTOUCHED, result_clause(f'sp_or({HERE})', ())]),
         'parse_expression': A(stub=True, ret='r', requires=[CURSOR], ensures=[UNTOUCHED, result_clause(f'sp_expr({HERE})', ())]),
